@@ -41,6 +41,7 @@ type pev struct {
 	alt   []*pev
 	pos   token.Pos
 	start bool // map argument is <tok>.Start (not End)
+	via   string // text events: the writer method used (WriteString / WriteRune)
 }
 
 type printerEvents struct {
@@ -297,10 +298,10 @@ func (x *pextract) call(call *ast.CallExpr) *pev {
 				if v, ok := constOfExpr(x.info, call.Args[0]); ok {
 					switch v.Kind() {
 					case constant.String:
-						return &pev{kind: evLit, text: constant.StringVal(v), pos: pos}
+						return &pev{kind: evLit, text: constant.StringVal(v), pos: pos, via: m}
 					case constant.Int:
 						i, _ := constant.Int64Val(v)
-						return &pev{kind: evLit, text: string(rune(i)), pos: pos}
+						return &pev{kind: evLit, text: string(rune(i)), pos: pos, via: m}
 					}
 				}
 				arg := call.Args[0]
@@ -311,7 +312,7 @@ func (x *pextract) call(call *ast.CallExpr) *pev {
 					}
 				}
 				if fp, ok := x.fieldPath(arg); ok && fp != "" {
-					return &pev{kind: evText, field: fp, pos: pos}
+					return &pev{kind: evText, field: fp, pos: pos, via: m}
 				}
 			}
 			return &pev{kind: evOther, text: "write of a computed text", pos: pos}
